@@ -1,6 +1,8 @@
 package c13
 
 import (
+	"encoding/json"
+	"github.com/influxdata/kapacitor/tick/ast"
 	"fmt"
 	"os"
 	"testing"
@@ -29,5 +31,26 @@ func TestProbeTick(t *testing.T) {
 			fmt.Println(canonDiff(fp.Canon, f2.Canon))
 			fmt.Println("A:\n" + fp.Canon + "\nB:\n" + f2.Canon)
 		}
+	}
+}
+
+// TestProbeProgramJSON: is a program AST readable from its own JSON?
+func TestProbeProgramJSON(t *testing.T) {
+	if os.Getenv("C13_PROBE_PJ") == "" {
+		t.Skip()
+	}
+	for _, s := range []string{"var x = 5", "var l = lambda: \"a\" > 1", "stream|from()", "stream\n|from().measurement('m')", "var t string", "dbrp \"a\".\"b\"", "// c\nvar x = 1"} {
+		root, err := ast.Parse(s)
+		if err != nil {
+			t.Fatal(err)
+		}
+		b, err := json.Marshal(root)
+		if err != nil {
+			fmt.Printf("%q: marshal error %v\n", s, err)
+			continue
+		}
+		var p ast.ProgramNode
+		err = json.Unmarshal(b, &p)
+		fmt.Printf("%q: unmarshal err=%v equal=%v\n", s, err, err == nil && p.Equal(root))
 	}
 }
